@@ -19,6 +19,7 @@ RULE = ("(1) API (harness/h_numlit.cc, rapidcheck, ASan/UBSan): strings [-]d*[.d
         "distinct by literal text.")
 ASSUMPTIONS = ["own exact literal parser (Fraction / mpq)", "sanitizer build for the API part"]
 _H = {}
+PREPARE_ON_REPLAY = False
 
 
 def prepare(tier, seed=1):
